@@ -1057,6 +1057,12 @@ func (e *Engine) GenerateOverlay(ps *PkgSpec, pkg *types.Package, fnByKey map[st
 	}
 	// imports: those the qualifier saw plus those mentioned textually as "name."
 	text := body.String()
+	for _, a := range ps.Abstract {
+		if a == "bytecode.Type" {
+			// the record-view helpers below mention the package
+			text += "\n// bytecode.Type\n"
+		}
+	}
 	var sb strings.Builder
 	fmt.Fprintf(&sb, "//go:build verif\n\npackage %s\n\n", pkg.Name())
 	imports := map[string]string{}
